@@ -344,6 +344,7 @@ def library_facts(root=REPO):
         try:
             with open(path, "rb") as fh:
                 f = pickle.load(fh)
+            os.utime(path, None)      # least-recently-used eviction below
         except Exception:
             f = None
     if f is None:
@@ -354,9 +355,9 @@ def library_facts(root=REPO):
         with open(tmp, "wb") as fh:
             pickle.dump(f, fh, protocol=4)
         os.replace(tmp, path)
-        # keep at most three fact caches
+        # keep at most four fact caches (least recently used go first)
         olds = sorted(glob.glob(os.path.join(CACHE, "facts-*.pkl")), key=os.path.getmtime)
-        for o in olds[:-3]:
+        for o in olds[:-4]:
             try:
                 os.remove(o)
             except OSError:
